@@ -32,10 +32,10 @@ for p in props:
         na.append({"property_id": pid, "reason": NOT_CLAIMED.get(pid, "check not built yet in this tree; not claimed")})
 
 ENGINES = [
-    {"name": "E1 dec_explore", "path": "explorers/dec_explore.c", "serves_properties": ["C01", "C02", "C03", "C04", "C09", "C14"],
-     "kind_free_text": "in-process bounded exhaustive enumeration of compressed streams from reference serialisers / invalid-structure grammars against the real decoders (ASan/UBSan build)"},
+    {"name": "E1 dec_explore", "path": "explorers/dec_lh.c", "serves_properties": ["C01", "C02", "C03", "C04", "C09", "C14"],
+     "kind_free_text": "(explorers/dec_larc.c, dec_lh.c, dec_lh1.c, dec_pm.c, dec_fuzz.c, dec_split.c) in-process bounded exhaustive enumeration of compressed streams from reference serialisers / invalid-structure grammars against the real decoders (ASan/UBSan build)"},
     {"name": "E2 arc_explore", "path": "explorers/arc_explore.c", "serves_properties": ["C05", "C07", "C08", "C11", "C12", "C13", "C16"],
-     "kind_free_text": "bounded exhaustive enumeration of header/archive byte strings against the real reader, with independent reference parser / integrity predicate"},
+     "kind_free_text": "(explorers/arc_explore.c and explorers/arc_walk.c) bounded exhaustive enumeration of header/archive byte strings against the real reader, with independent reference parser / integrity predicate"},
     {"name": "E3 hist_explore", "path": "explorers/hist_explore.c", "serves_properties": ["C15", "C20", "C13", "C08"],
      "kind_free_text": "exhaustive API-history enumeration with deviation-bounded environment answers (allocation faults, stream answers), two-reader interleavings and preemption-bounded thread schedules"},
     {"name": "E4 cli_explore", "path": "explorers/cli_runner.c", "serves_properties": ["C06", "C10", "C18", "C19", "C07", "C13", "C16"],
